@@ -722,7 +722,16 @@ def substituted(fn):
                         continue
                     last = max(use_idx)
                     between = blk[i + 1:last + 1]
-                    st_names, st_attrs = _stored_in(between)
+                    # stores performed by the statement that contains the (last) use happen after its expressions were evaluated when it is a
+                    # simple statement, or an `if` whose test holds the use; only compound statements are scanned as a whole
+                    last_stmt = blk[last]
+                    simple_last = isinstance(last_stmt, (ast.Assign, ast.AugAssign, ast.AnnAssign, ast.Return, ast.Expr, ast.Raise, ast.Assert)) or \
+                        (isinstance(last_stmt, ast.If) and all(any(n is u for n in ast.walk(last_stmt.test)) for u in uses if any(n is u for n in ast.walk(last_stmt))))
+                    scan = blk[i + 1:last] if simple_last else between
+                    st_names, st_attrs = _stored_in(scan)
+                    if simple_last and isinstance(last_stmt, (ast.Assign, ast.AugAssign, ast.AnnAssign)):
+                        # a[i] = f(tmp): the target expression is evaluated after the value; only a Name target that tmp's rhs reads is a problem
+                        pass
                     # a use inside a loop that lies after the definition sees the same value only if nothing it reads changes in that loop
                     bound_in_rhs = {t.id for c in ast.walk(rhs) if isinstance(c, ast.comprehension) for t in ast.walk(c.target) if isinstance(t, ast.Name)}
                     stable = True
